@@ -9,10 +9,10 @@ regenerates from `vls-core/src/util/transaction_utils.rs` (`Gen/FnTxUtil.lean`):
 division would give 0); the only callers pass LDK's `htlc_timeout_tx_weight`/`htlc_success_tx_weight` (663/703) or
 the weight of a transaction with an input.
 -/
-namespace VlsModel.Props.C04Gen
+namespace VlsModel.Props.C04Fn
 open VlsModel
 
-theorem C04_gen_estimate_feerate (fee weight : Nat) (hw : weight ≠ 0) :
+theorem C04_fn_estimate_feerate (fee weight : Nat) (hw : weight ≠ 0) :
     Gen.FnTxUtil.estimate_feerate_per_kw fee weight = .ok (Bolt3.estimateFeerate fee weight) := by
   unfold Gen.FnTxUtil.estimate_feerate_per_kw Bolt3.estimateFeerate
   simp only [Rs.udiv, hw, if_false, Rs.bind_ok, Rs.pure_eq, Rs.usatAdd, Rs.usatMul, Rs.utryFrom, Rs.U64_MAX, Rs.U32_MAX]
@@ -21,8 +21,8 @@ theorem C04_gen_estimate_feerate (fee weight : Nat) (hw : weight ≠ 0) :
   simp
   exact key _ _
 
-theorem C04_gen_estimate_feerate_weight_zero (fee : Nat) :
+theorem C04_fn_estimate_feerate_weight_zero (fee : Nat) :
     Gen.FnTxUtil.estimate_feerate_per_kw fee 0 = .error .panic := by
   simp [Gen.FnTxUtil.estimate_feerate_per_kw, Rs.udiv, Rs.panic, bind, Except.bind]
 
-end VlsModel.Props.C04Gen
+end VlsModel.Props.C04Fn
